@@ -388,6 +388,7 @@ def finalOpLeg (e : Entry) : BitVec 32 :=
   if e.enc == 0x4D || e.enc == 0x53 then e.mainOp ||| ((if isXmmKind k0 || isXmmKind k1 then 1#32 else 0#32) <<< 21)      -- ExtRm_P / ExtRmi_P
   else if e.enc == 0x14 then addPrefixBySize e.mainOp (kindSize k0)                                                        -- X86Rm
   else if e.enc == 0x17 then addPrefixBySize e.mainOp (kindSize k1)                                                        -- X86Mr
+  else if e.enc == 0x21 then addPrefixBySize 0x1AF#32 (kindSize k0)                                                        -- X86Imul reg, reg (0F AF /r)
   else e.mainOp
 
 def legRuleOk (r : Rule) (nimm pp : Nat) : Bool :=
@@ -417,7 +418,7 @@ theorem legAgreeOk_spec (r : Rule) (op : BitVec 32) (h : legAgreeOk r op = true)
 def entryOkLrm (e : Entry) : Bool :=
   match e.rule.ops, e.kinds with
   | [f0, f1], [k0, k1] =>
-    (e.enc == 0x4A || e.enc == 0x4D || e.enc == 0x14 || e.enc == 0x16) &&
+    (e.enc == 0x4A || e.enc == 0x4D || e.enc == 0x14 || e.enc == 0x16 || e.enc == 0x21) &&
     (legRuleOk e.rule 0 ((finalOpLeg e >>> 21) &&& 3#32).toNat && (legAgreeOk e.rule (finalOpLeg e) &&
     (f0.role == .reg && (f1.role == .rm && shapeOk2 e.rule f0 f1 k0 k1))))
   | _, _ => false
